@@ -94,6 +94,15 @@ def rule_r1(p, res):
     r.instance(nv)
     s = norm(nv.node)
     r.check("self._eigenvalues[self.n_active_components:]" in s and "self._trimmed_eigenvalues" in s, nv, nv.node, "noise variance must average the inactive and the trimmed eigenvalues")
+    # ... on the same path: wherever the inactive tail of the kept eigenvalues is averaged, the trimmed pool is averaged with it
+    dn = Defs(nv.node)
+    tails = 0
+    for n in walk_own(nv.node):
+        if isinstance(n, ast.Assign) and any(isinstance(x, ast.Subscript) and norm(x.value) == "self._eigenvalues" for x in ast.walk(n.value)):
+            tails += 1
+            r.check("self._trimmed_eigenvalues" in leaves(n.value, dn), nv, n, "`%s` averages the inactive kept eigenvalues without the trimmed ones: after a trim followed by a lower n_active_components "
+                    "the discarded variance is under-counted and kept + discarded no longer equals the original variance" % norm(n)[:70], {"noise_tail": norm(n.value)[:60]})
+    need(tails >= 1, "C10.R1: the branch of noise_variance that averages the inactive eigenvalues was not found")
 
 
 def rule_r2(p, res):
@@ -341,4 +350,9 @@ WITNESSES = [
             rule="C10.R7", construct="n_active_components", note="seeded change C10-B", count=1),
     Witness("C10.W11", "menpo/math/decomposition.py", "eigenvalue_decomposition", "pos_index = eigenvalues > 0.0", "pos_index = eigenvalues > eps", rule="C10.R2", construct="eigenvalue_decomposition", note="seeded change R2-C10-A"),
     Witness("C10.T1", "menpo/math/decomposition.py", "pca", "C = np.dot(X.conj().T, X) / (n - 1)", "nm1 = n - 1\n        C = np.dot(X.conj().T, X) / nm1", kind="T"),
+]
+
+WITNESSES += [
+    Witness("C10.W12", "menpo/model/pca.py", "PCAVectorModel.noise_variance", "np.hstack((self._eigenvalues[self.n_active_components:], self._trimmed_eigenvalues)).mean()", "self._eigenvalues[self.n_active_components:].mean()",
+            rule="C10.R1", construct="noise_variance", note="seeded change R3-C10-C"),
 ]
